@@ -316,8 +316,15 @@ func (f *fmt) fmtQc(c uint64)
   modifies f, f.buf
   ensures inv(f.buf) && BK(f.buf) && FK(f)
 
-assume func (f *fmt) fmtFloat(v float64, size int, verb rune, prec int)
+-- the digits come from strconv (assumed: appended to the scratch buffer in place, or into a new array)
+assume func strconv.AppendFloat(dst []byte, v float64, fmt byte, prec int, bitSize int) (r []byte)
+  modifies mem(dst), alloc
+  ensures len(r) >= len(dst) + 1 && ((ref(r) == ref(dst) && off(r) == off(dst)) || fresh(r))
+
+func (f *fmt) fmtFloat(v float64, size int, verb rune, prec int)
   nosweep
+  loop 1 invariant memKeptExcept(f.intbuf) && (ref(num) == ref(f.intbuf) || fresh(num)) && fresh(tail) && ref(num) != ref(tail) && 1 <= i && len(num) >= 1 && num[0] < 128
+  loop 2 invariant memKeptExcept(f.intbuf) && (ref(num) == ref(f.intbuf) || fresh(num)) && fresh(tail) && ref(num) != ref(tail) && len(num) >= 1 && num[0] < 128
   requires f.buf != nil && inv(f.buf) && f.buf.mode != SafeRaw && WP(f)
   requires [C02] S1(f.buf, 2)
   requires [C06] S2(f.buf)
